@@ -89,6 +89,14 @@ def run(ctx):
     refid = {}
     for k in ("flat", "coff", "empty", "long"):
         refid[k] = R.add([], src=texts[k].decode(), notrace=True)
+    # Shift_JIS bytes INSIDE string data (the command decodes the file as Shift_JIS; the reference is the API on the decoded text):
+    # half-width katakana pairs that are also valid UTF-8 alone / next to bytes that are not, kanji, a 0x5C trail byte
+    base_text = render.program(flatprog).encode()
+    strs = {"str_kana_utf8ish": [b"\xc3\xa9"], "str_kana_mixed": [b"\xc3\xa9", b"\xb1"], "str_kana_mixed2": [b"\xb1\xb2", b"\xc3\xa9\xc4\xb3"],
+            "str_kanji": [b"\x93\xfa\x96\x7b"], "str_trail5c": [b"\x95\x5c\x8e\xa6"], "str_ascii": [b"hello"]}
+    for k, items in strs.items():
+        texts[k] = base_text + b"".join(b'\tDB\t"' + it + b'"\n' for it in items)
+        refid[k] = R.add([], src=texts[k].decode("shift_jis"), notrace=True)
     # a source that makes the assembler die abnormally, if the tree under test has one (classified by actually running it)
     cand = [b"\tINT\t256\n", b"A\tEQU\tA+1\n\tDB\tA\n", b"\tINT\tAX\n"]
     candid = [R.add([], src=c.decode(), notrace=True) for c in cand]
@@ -186,6 +194,14 @@ def run(ctx):
         u = utf8_lines()
         rng.shuffle(u)
         enc_cases.append(("utf8", "utf8", with_comments(base_lines, u * 3, rng, at_top=i % 3)))
+    for k in strs:
+        d = os.path.join(work, "e%d" % nsit)
+        os.makedirs(d)
+        nsit += 1
+        sp = os.path.join(d, "in.nas")
+        open(sp, "wb").write(texts[k])
+        dp = os.path.join(d, "out.bin")
+        observe({"nargs": 2, "flag": "", "src": "sjis", "dst": "absent"}, [sp, dp], srcbytes_expected=api[k], dstpath=dp)
     for enc, kind, body in enc_cases:
         d = os.path.join(work, "e%d" % nsit)
         os.makedirs(d)
